@@ -44,6 +44,25 @@ def under(tree, p):
     return [k for k in tree if k == p or k.startswith(p + "/")]
 
 
+NEWLINE_AWARE = [False]  # C12: file texts carry their newline convention; edits keep it
+
+
+def newline_of(text):
+    if "\r\n" in text:
+        return "\r\n"
+    if "\r" in text:
+        return "\r"
+    return "\n"
+
+
+def _edit_text(old, new):
+    """Text an edit leaves on disk: the file's newline convention is kept (reference codec rule)."""
+    if not NEWLINE_AWARE[0]:
+        return new
+    nl = newline_of(old)
+    return new if nl == "\n" else new.replace("\n", nl)
+
+
 class ModelError(Exception):
     """The model says this change is invalid (rope must then refuse)."""
 
@@ -55,7 +74,7 @@ def apply(tree, spec):
     if kind == "edit":
         if t.get(spec[1]) is None:
             raise ModelError("edit of non-file")
-        t[spec[1]] = spec[2]
+        t[spec[1]] = _edit_text(t[spec[1]], spec[2])
     elif kind in ("mkfile", "mkdir"):
         p = join(spec[1], spec[2])
         if not is_dir(t, spec[1]) or p in t:
